@@ -399,6 +399,9 @@ def build_value(v, grpcls=None, objcls=None):
         if "dt" in v:
             y, mo, d, h, mi, s, us, tz = v["dt"]
             return dtm.datetime(y, mo, d, h, mi, s, us, tzinfo=tzinfo_of(tz))
+        if "dec" in v:
+            from decimal import Decimal
+            return Decimal(v["dec"])
         if "q" in v:
             return Quantity(build_value(v["q"][0], grpcls, objcls), v["q"][1])
         if "seq" in v:
